@@ -225,6 +225,8 @@ def verifyEth (cr : Crypto) (cfg : ChainCfg) (height : Nat) (tx : Tx) : Verdict 
   match decodeTx enc with
   | none => .illegal
   | some e =>
+    if encodeTx e ≠ enc then .illegal   -- canonical-payload check (fix: commit on hooks/c07)
+    else
     match ethSender cr (ethChainId cfg height) e with
     | none => .illegal
     | some sender =>
@@ -289,6 +291,7 @@ def ethQueries (cr : Crypto) (cfg : ChainCfg) (height : Nat) (tx : Tx) : List Qu
   match decodeTx (fromHex tx.extraData) with
   | none => []
   | some e =>
+    if encodeTx e ≠ fromHex tx.extraData then [] else
     ethSenderQueries cr (ethChainId cfg height) e ++
       (match ethSender cr (ethChainId cfg height) e with
        | none => []
